@@ -307,6 +307,7 @@ def daughters_oracle(mother_geo, ctr, axis, lmin, mtv, mtype, d1, d2, exact_volu
     bad = []
     V = vol6_geo(mother_geo) / 6.0
     vols = []
+    sides = []
     for k, d in ((1, d1), (2, d2)):
         tris = [ids for ids, _ in d["geo"]]
         bad += topo_oracle(tris, "daughter %d" % k)
@@ -320,19 +321,19 @@ def daughters_oracle(mother_geo, ctr, axis, lmin, mtv, mtype, d1, d2, exact_volu
         vols.append(v)
         if not (v > 0):
             bad.append("daughter %d is not outward oriented: signed volume %g" % (k, v))
-        # own side of the plane: daughter 1 keeps the faces with (x-p).n <= 0, daughter 2 those with > 0
-        sgn = -1.0 if k == 1 else 1.0
-        tol = lmin * 1e-6
-        worst = 0.0
-        for q in posmap.values():
-            s = dot(sub(list(q), ctr), axis) * sgn
-            worst = min(worst, s)
-        if worst < -tol:
-            bad.append("daughter %d has a node %g beyond the division plane (tolerance %g)" % (k, -worst, tol))
+        # signed distances of the nodes to the plane (judged after the loop: the two daughters on opposite sides)
+        ss = [dot(sub(list(q), ctr), axis) for q in posmap.values()]
+        sides.append((min(ss) if ss else 0.0, max(ss) if ss else 0.0))
         if d["type"] != mtype:
             bad.append("daughter %d has type %s, mother %s" % (k, d["type"], mtype))
         if d["tv"] != mtv / 2:
             bad.append("daughter %d has target volume %r, half of the mother's is %r" % (k, d["tv"], mtv / 2))
+    # each daughter on its own side of the plane through the mother's centroid (tolerance l_min * 1e-6)
+    ptol = lmin * 1e-6 * max(1.0, norm(axis))
+    neg = [hi <= ptol for (lo, hi) in sides]
+    pos = [lo >= -ptol for (lo, hi) in sides]
+    if not ((neg[0] and pos[1]) or (pos[0] and neg[1])):
+        bad.append("the daughters are not on opposite sides of the division plane: signed distances of their nodes span %r and %r (tolerance %g)" % (sides[0], sides[1], ptol))
     tol = (1e-6 if exact_volume else (vol_rel_tol if vol_rel_tol is not None else VOL_REL_TOL)) * abs(V)
     if abs(vols[0] + vols[1] - V) > tol:
         bad.append("daughter volumes %g + %g differ from the mother's %g by %g (tolerance %g)" % (vols[0], vols[1], V, vols[0] + vols[1] - V, tol))
